@@ -5,7 +5,7 @@ From BT Require Import Model.Skel Model.SkelTie Proof.SkelCert Proof.SkelProofs.
 
 Theorem C18_tie : G = guards_of_gen /\ g_sig_int_is_interrupt G = true /\ g_sig_honours_ignore G = true /\
                   g_sig_loops G = true /\ g_restore_keeps_nosig G = true /\ g_int_err G = true /\ g_quit_nil G = true /\
-                  g_sig_stays G = true /\ g_rz_guarded G = true /\ g_restore_unignores_first G = true /\
+                  g_sig_stays G = true /\ g_rz_guarded G = true /\ g_restore_unignores_first G = true /\ g_release_failure_restores G = true /\
                   shapes_ok_for ["handleSignals"; "handleResize"; "listenForResize"; "checkResize"; "WithoutSignals"; "WithoutSignalHandler"; "ReleaseTerminal"; "RestoreTerminal"]%string = true.
 Proof. vm_compute. repeat split. Qed.
 Print Assumptions C18_tie.
